@@ -1,8 +1,10 @@
 """C07 — see DESIGN.md §4."""
 from ..spec import run_specs
+from ..guards import run_D7
 
 EXPLANATION = "Per DW_OP opcode: Operation::parse consumes the standard operand kinds; per Operation variant the evaluator's arm calls the reviewed set of stack/value operations and error exits; the iteration limit is incremented and tested in every cycle that evaluates an operation; branch targets come only from the bounds-checked compute_pc; each Waiting state pairs with its resume method. Numeric results are NOT decided."
 
 
 def run(rep, ctx):
     run_specs(rep, ctx, 'C07')
+    run_D7(rep, ctx.g)
